@@ -21,6 +21,13 @@
 //!        W_t = train(F, decoy) run inside an explicit rayon pool of t threads; W' = the rows taken in the
 //!        order `perm`, in the pool of t1 threads (large tables: 1,100 .. 40,000 rows)
 //!   scorepsmst t n (21 fields)*n                               ->  as scorepsms, run inside a rayon pool of t threads
+//!   fdrrun decoys(0/1) fasta:hex mgf:hex                           ->  n (label poisson:f64 longest_y_pct:f32 disc:f32 ln1p:f32 spectrum_q:f32)*n
+//!        THE REAL `Runner::run` (the only public route to the private `Runner::spectrum_fdr` and its heuristic
+//!        fallback): FASTA + MGF are written to a private temp dir, a `sage_cli::runner::Runner` is built in-process
+//!        and run with 1 thread; `results.sage.tsv` is read back (ryu round-trips every float) and the rows are
+//!        returned sorted by (scannr, rank, peptide). `ln1p` = `(-poisson as f32).ln_1p()` by Rust's std (data for
+//!        the model). With decoys = 0 the database is target-only: one class empty, the LDA cannot be fitted and
+//!        every PSM gets the fallback score.
 //! All floats are bit patterns; every NaN is canonicalised to the quiet NaN 0x7ff8000000000000.
 use super::Info;
 use crate::proto::{Case, Out, Rng, Tier, Toks};
@@ -29,7 +36,7 @@ use sage_core::ml::gauss::Gauss;
 use sage_core::ml::linear_discriminant::{score_psms, LinearDiscriminantAnalysis};
 use sage_core::ml::matrix::Matrix;
 
-pub const OPS: &[&str] = &["gauss", "lda", "scorepsms", "ldabig", "scorepsmst"];
+pub const OPS: &[&str] = &["gauss", "lda", "scorepsms", "ldabig", "scorepsmst", "fdrrun"];
 pub const INFO: Info = Info {
     rule: "gauss: n<=6 (quick) / 10 (thorough) systems with A = random SPD (G'G + dI), nearly singular PSD \
            (G'G, rank r<n, float-rounded), exactly singular PSD (small integers), diagonal / zero rows, \
@@ -43,6 +50,8 @@ pub const INFO: Info = Info {
            permutations for n <= 4 (quick) / 6 (thorough); non-trivial = both classes present and p >= 2. \
            large-table (ops ldabig / scorepsmst): 1,100 / 2,049+1,500 / 5,000 / 40,000 rows x 2..4 features on the grid 2^-8, sorted by a feature / by label / shuffled, class shift 0.02 sd (weak) or ~1 sd, \
            train run inside explicit rayon pools of 1, 4 (quick) / 1, 2, 4, 16 threads plus a random row permutation; score_psms on 1,100 / 3,549 PSMs sorted by hyperscore in pools of 4 / 16 threads. \
+           fdrrun: THE REAL Runner::run on tiny target-only searches (LDA not fitted => heuristic fallback of Runner::spectrum_fdr): 2..5 families of isobaric peptides \
+           (permutations of one composition, 1..5 members) with full / half / 3..5-peak b,y ladders plus noise, so that poisson ranges from about -0.3 to below -10; every 5th case with decoys; a single-PSM search. \
            scorepsms: 1..80 (quick) / 400 PSM feature records with realistic ranges (finite poisson <= 0), large and small sets, \
            constant charge/rank columns, ion mobility present or all zero, two decoys only; a default-on family `nonfinite-feature-guarded` (fittable sets of 40..70 records in which 1..3 records carry poisson in {-inf,+inf,NaN,2.5,1.0} or \
            delta_rt_model / delta_ims_model in {+inf,-inf,negative,>1}: the guards of the feature transform must replace them, fit expected); variants that must fall back: one class empty, \
@@ -260,6 +269,120 @@ fn exec_scorepsms(t: &mut Toks) -> Option<String> {
     Some(o.finish())
 }
 
+struct TmpDir(std::path::PathBuf);
+impl TmpDir {
+    fn new() -> Self {
+        static N: std::sync::atomic::AtomicUsize = std::sync::atomic::AtomicUsize::new(0);
+        let k = N.fetch_add(1, std::sync::atomic::Ordering::SeqCst);
+        let p = std::env::temp_dir().join(format!("verif-c15-{}-{}", std::process::id(), k));
+        std::fs::create_dir_all(&p).expect("temp dir");
+        TmpDir(p)
+    }
+}
+impl Drop for TmpDir {
+    fn drop(&mut self) {
+        let _ = std::fs::remove_dir_all(&self.0);
+    }
+}
+
+fn exec_fdrrun(t: &mut Toks) -> Option<String> {
+    use sage_cli::input::Search;
+    use sage_cli::runner::Runner;
+    use sage_core::database::{Builder, EnzymeBuilder};
+    let decoys = t.bool()?;
+    let fasta = t.string()?;
+    let mgf = t.string()?;
+    if !t.done() {
+        return None;
+    }
+    let dir = TmpDir::new();
+    let fasta_path = dir.0.join("db.fasta");
+    std::fs::write(&fasta_path, fasta).ok()?;
+    let mgf_path = dir.0.join("spectra.mgf");
+    std::fs::write(&mgf_path, mgf).ok()?;
+    let mut db = Builder { fasta: Some(fasta_path.to_string_lossy().to_string()), ..Default::default() }.make_parameters();
+    db.enzyme = EnzymeBuilder { missed_cleavages: Some(0), min_len: Some(5), max_len: Some(50), ..Default::default() };
+    db.peptide_min_mass = 300.0;
+    db.peptide_max_mass = 6000.0;
+    db.generate_decoys = decoys;
+    let search = Search {
+        version: "verif".into(),
+        database: db,
+        quant: Default::default(),
+        precursor_tol: Tolerance::Ppm(-20.0, 20.0),
+        fragment_tol: Tolerance::Ppm(-10.0, 10.0),
+        precursor_charge: (2, 4),
+        override_precursor_charge: false,
+        isotope_errors: (0, 0),
+        deisotope: false,
+        chimera: false,
+        wide_window: false,
+        min_peaks: 2,
+        max_peaks: 150,
+        max_fragment_charge: None,
+        min_matched_peaks: 2,
+        report_psms: 1,
+        predict_rt: false,
+        mzml_paths: vec![mgf_path.to_string_lossy().to_string()],
+        output_paths: Vec::new(),
+        bruker_config: Default::default(),
+        output_directory: sage_cloudpath::CloudPath::Local(dir.0.clone()),
+        write_pin: false,
+        annotate_matches: false,
+        score_type: sage_core::scoring::ScoreType::SageHyperScore,
+    };
+    let runner = match Runner::new(search, 1) {
+        Ok(r) => r,
+        Err(_) => return Some("err:runner_new".into()),
+    };
+    if in_pool(1, || runner.run(1, false)).is_err() {
+        return Some("err:run".into());
+    }
+    let text = std::fs::read_to_string(dir.0.join("results.sage.tsv")).ok()?;
+    let mut lines = text.lines();
+    let header: Vec<&str> = lines.next()?.split('\t').collect();
+    let col = |name: &str| header.iter().position(|h| *h == name);
+    let (c_scan, c_rank, c_pep, c_label, c_poi, c_lyp, c_disc, c_q) = (
+        col("scannr")?,
+        col("rank")?,
+        col("peptide")?,
+        col("label")?,
+        col("poisson")?,
+        col("longest_y_pct")?,
+        col("sage_discriminant_score")?,
+        col("spectrum_q")?,
+    );
+    let mut rows: Vec<(String, u32, String, i32, f64, f32, f32, f32)> = Vec::new();
+    for l in lines {
+        let f: Vec<&str> = l.split('\t').collect();
+        if f.len() != header.len() {
+            return Some("err:tsv_row".into());
+        }
+        rows.push((
+            f[c_scan].to_string(),
+            f[c_rank].parse().ok()?,
+            f[c_pep].to_string(),
+            f[c_label].parse().ok()?,
+            f[c_poi].parse().ok()?,
+            f[c_lyp].parse().ok()?,
+            f[c_disc].parse().ok()?,
+            f[c_q].parse().ok()?,
+        ));
+    }
+    rows.sort_by(|a, b| (&a.0, a.1, &a.2).cmp(&(&b.0, b.1, &b.2)));
+    let mut o = Out::new();
+    o.n(rows.len());
+    for r in &rows {
+        o.n(r.3);
+        put64(&mut o, r.4);
+        put32(&mut o, r.5);
+        put32(&mut o, r.6);
+        put32(&mut o, (-r.4 as f32).ln_1p());
+        put32(&mut o, r.7);
+    }
+    Some(o.finish())
+}
+
 fn in_pool<R: Send>(threads: usize, f: impl FnOnce() -> R + Send) -> R {
     rayon::ThreadPoolBuilder::new()
         .num_threads(threads.max(1))
@@ -334,6 +457,7 @@ pub fn exec(op: &str, t: &mut Toks) -> Option<String> {
         "scorepsms" => exec_scorepsms(t),
         "ldabig" => exec_ldabig(t),
         "scorepsmst" => exec_scorepsmst(t),
+        "fdrrun" => exec_fdrrun(t),
         _ => None,
     }
 }
@@ -1161,6 +1285,101 @@ fn gen_big(rng: &mut Rng, tier: Tier, emit: &mut dyn FnMut(Case)) {
     }
 }
 
+/// b/y fragment m/z (charge 1) and precursor m/z (charge 2) of an unmodified peptide
+fn fragments(seq: &[u8]) -> (Vec<f64>, f64) {
+    use sage_core::mass::{monoisotopic, H2O, PROTON};
+    let m: Vec<f64> = seq.iter().map(|&a| monoisotopic(a) as f64).collect();
+    let total: f64 = m.iter().sum::<f64>() + H2O as f64;
+    let mut out = Vec::new();
+    let mut acc = 0.0;
+    for i in 0..seq.len() - 1 {
+        acc += m[i];
+        out.push(acc + PROTON as f64); // b_{i+1}
+        out.push(total - acc + PROTON as f64); // y_{len-1-i}
+    }
+    (out, (total + 2.0 * PROTON as f64) / 2.0)
+}
+
+fn req_fdrrun(decoys: bool, fasta: &str, mgf: &str) -> String {
+    let mut o = Out::new();
+    o.raw("fdrrun").b(decoys).s(fasta).s(mgf);
+    o.finish()
+}
+
+/// The real `Runner::run` on tiny searches whose LDA cannot be fitted (target-only database: one class
+/// empty) so that `Runner::spectrum_fdr` takes its heuristic fallback; families of isobaric peptides
+/// (permutations of one composition) give several scored candidates per spectrum, hence poisson << -1,
+/// single-candidate spectra with few peaks give poisson in (-1, 0)
+fn gen_fdrrun(rng: &mut Rng, tier: Tier, emit: &mut dyn FnMut(Case)) {
+    let reps = if tier == Tier::Quick { 6 } else { 80 };
+    let alphabet = b"ADEFGHILMNQSTVWY";
+    for rep in 0..reps {
+        let nfam = 2 + rng.below(4);
+        let mut fasta = String::new();
+        let mut mgf = String::new();
+        let mut scan = 0usize;
+        for fam in 0..nfam {
+            let len = 7 + rng.below(8);
+            let mut core: Vec<u8> = (0..len).map(|_| *rng.pick(alphabet)).collect();
+            let members = if rng.chance(1, 3) { 1 } else { 2 + rng.below(4) };
+            let mut seqs: Vec<Vec<u8>> = Vec::new();
+            for _ in 0..members {
+                rng.shuffle(&mut core);
+                let mut s = core.clone();
+                s.push(b'K');
+                if !seqs.contains(&s) {
+                    seqs.push(s);
+                }
+            }
+            fasta.push_str(&format!(">sp|P{:03}|FAM{}\n", fam, fam));
+            for s in &seqs {
+                fasta.push_str(std::str::from_utf8(s).unwrap());
+            }
+            fasta.push('\n');
+            // spectra of one or two members: a full ladder, a partial ladder, a poor spectrum
+            for (si, s) in seqs.iter().enumerate().take(2) {
+                let (frags, pmz) = fragments(s);
+                let keep = match (rep + fam + si) % 3 {
+                    0 => frags.len(),
+                    1 => frags.len() / 2,
+                    _ => 3 + rng.below(3),
+                };
+                let mut idx: Vec<usize> = (0..frags.len()).collect();
+                rng.shuffle(&mut idx);
+                let mut peaks: Vec<(f64, f64)> = idx[..keep.min(frags.len())].iter().map(|&i| (frags[i], 100.0 + 900.0 * rng.unit())).collect();
+                // a few noise peaks
+                for _ in 0..rng.below(4) {
+                    peaks.push((150.0 + 900.0 * rng.unit(), 50.0 + 100.0 * rng.unit()));
+                }
+                peaks.sort_by(|a, b| a.0.total_cmp(&b.0));
+                mgf.push_str(&format!("BEGIN IONS\nTITLE=scan={}\nPEPMASS={}\nCHARGE=2+\nRTINSECONDS={}\n", scan, pmz, 60 + scan));
+                for (m, i) in peaks {
+                    mgf.push_str(&format!("{} {}\n", m, i));
+                }
+                mgf.push_str("END IONS\n");
+                scan += 1;
+            }
+        }
+        // target-only database: the LDA cannot be fitted; every 5th case keeps the decoys (fit may succeed)
+        let decoys = rep % 5 == 4;
+        emit(Case::new(req_fdrrun(decoys, &fasta, &mgf))
+            .tag("fdrrun")
+            .tag(if decoys { "with-decoys" } else { "target-only" }));
+    }
+    // a single spectrum / a single PSM
+    let mut s = b"ADEFGHILK".to_vec();
+    let (frags, pmz) = fragments(&s);
+    s.push(b'\n');
+    let mut mgf = format!("BEGIN IONS\nTITLE=scan=0\nPEPMASS={}\nCHARGE=2+\nRTINSECONDS=60\n", pmz);
+    for m in &frags {
+        mgf.push_str(&format!("{} 500\n", m));
+    }
+    mgf.push_str("END IONS\n");
+    let fasta = format!(">sp|P000|ONE\n{}", std::str::from_utf8(&s).unwrap());
+    emit(Case::new(req_fdrrun(false, &fasta, &mgf)).tag("fdrrun").tag("single-psm"));
+    emit(Case::new(req_fdrrun(true, &fasta, &mgf)).tag("fdrrun").tag("single-psm").tag("with-decoys"));
+}
+
 pub fn gen(rng: &mut Rng, tier: Tier, emit: &mut dyn FnMut(Case)) {
     let mut r = rng.fork();
     gen_finding_families(&mut r, tier, emit);
@@ -1168,4 +1387,5 @@ pub fn gen(rng: &mut Rng, tier: Tier, emit: &mut dyn FnMut(Case)) {
     gen_lda(rng, tier, emit);
     gen_psms(rng, tier, emit);
     gen_big(rng, tier, emit);
+    gen_fdrrun(rng, tier, emit);
 }
